@@ -101,6 +101,7 @@ fn main() {
     "did_probe" => did::probe(&cex),
     "verifier_dispatch" => verifiers::dispatch(&cex),
     "did_cursor" => did::cursor(&cex),
+    "did_segment" => did::segment(&cex),
     "malformed_inputs" => malformed::malformed(&cex),
     "credential_validation" => cred::credential_validation(&cex),
     "presentation_validation" => cred::presentation_validation(&cex),
